@@ -81,6 +81,89 @@ WITNESSES = [
 ]
 
 
+def race_text(name, cap, progs, rounds):
+    out = ["case " + name, "chan async" if cap is None else "chan sync %d" % cap, "senders %d" % len(progs)]
+    for i, p in enumerate(progs):
+        out.append("prog %d: %s" % (i + 1, p))
+    return out + ["race %d" % rounds, "end"]
+
+
+# uncontrolled runs (real races): where the outcome depends on who wins inside std's blocking send, which no
+# yield point can decide.  End states only; they support the search, they are not compared with the model.
+RACES = [
+    ("race_sync1_blocked_send", 1, ["trysend 1 ; send 2"]),
+    ("race_sync2_blocked_send_then_drop", 2, ["trysend 1 ; trysend 2 ; send 3 ; drop", "drop"]),
+    ("race_sync1_two_senders", 1, ["send 1 ; send 2 ; drop", "trysend 3 ; drop"]),
+    ("race_async_burst", None, ["send 1 ; send 2 ; send 3 ; drop", "send 11 ; send 12 ; drop"]),
+]
+
+
+def spec_race(case, line):
+    """end-state clauses of one uncontrolled run -> None | (kind, reason); kind 'lost' = a successfully sent message
+    (or the close) never reached the callback although the loop went on dispatching"""
+    cap = None
+    prog_vals, handles_left = {}, 0
+    for l in case:
+        w = l.split()
+        if w[0] == "chan":
+            cap = None if w[1] == "async" else int(w[2])
+        if w[0] == "prog":
+            ops = [x.split() for x in l.split(":", 1)[1].split(";") if x.split()]
+            prog_vals[int(w[1].rstrip(":"))] = [int(o[1]) for o in ops if o[0] in ("send", "trysend")]
+            h = 1
+            for o in ops:
+                if o[0] == "clone" and h > 0:
+                    h += 1
+                elif o[0] == "drop" and h > 0:
+                    h -= 1
+            handles_left += h
+    nthreads = len(prog_vals)
+    fin = int(line.split("finished=")[1].split()[0])
+    items = [x for x in line.split("delivered=[")[1].split("]")[0].split(",") if x]
+    res = [r.split() for r in line.split("results=[")[1].rstrip("]").split(";") if r.split()]
+    sent_ok = [int(r[2]) for r in res if len(r) == 4 and r[3] == "ok"]
+    msgs = [int(x) for x in items if x != "closed"]
+    if "closed" in items and items[-1] != "closed":
+        return ("order", "a message was delivered after Closed: %s" % items)
+    if items.count("closed") > 1:
+        return ("order", "Closed delivered twice")
+    if len(set(msgs)) != len(msgs):
+        return ("order", "a message was delivered twice: %s" % items)
+    for tid, vals in prog_vals.items():
+        sub = [m for m in msgs if m in vals]
+        if sub != [v for v in vals if v in sub]:
+            return ("order", "messages of sender %d delivered out of order: %s" % (tid, items))
+    if [m for m in msgs if m not in sent_ok]:
+        return ("order", "a message was delivered that no send reported as sent: %s vs %s" % (msgs, sent_ok))
+    if fin == nthreads:
+        left = [m for m in sent_ok if m not in msgs]
+        if left:
+            return ("lost", "message %s was sent successfully, every sender finished and the loop kept dispatching until it was quiet, "
+                            "but the message was never delivered" % left)
+        if handles_left == 0 and "closed" not in items:
+            return ("lost", "every sender handle is gone and the loop kept dispatching until it was quiet, but Closed was never delivered")
+    elif cap == 0:
+        return ("F9", "a sender is still blocked in send() on the rendezvous channel while the loop idles")
+    else:
+        return ("lost", "a sender never returned from send() although the loop kept dispatching")
+    return None
+
+
+def run_races(rounds):
+    """-> list of (case, line, verdict)"""
+    cases = [race_text(n, cap, progs, rounds) for n, cap, progs in RACES]
+    text = "\n".join("\n".join(c) for c in cases) + "\n"
+    rc, out, err = C.run_vh("chansched", text, timeout=1200)
+    if rc != 0:
+        raise RuntimeError("vh chansched (race) failed: " + err[-300:])
+    res = []
+    for c, t in zip(cases, split_cases(out.splitlines())):
+        for l in t:
+            if l.startswith("race "):
+                res.append((c, l, spec_race(c, l)))
+    return res
+
+
 def split_cases(lines):
     out, cur = [], None
     for l in lines:
@@ -163,7 +246,8 @@ def spec_c04(case, trace):
         if last is not None and msgs[:len(last)] != last:
             return "the delivered sequence changed retroactively"
         last = msgs
-        if label == "done" and t != 0:
+        if label in ("done", "skip") and t != 0:
+            # "skip": the thread had already finished (e.g. it ran to its end by itself once a blocking send let it go)
             done.add(t)
         # every sender has finished, the eventfd is not readable and the loop finds nothing: whatever was
         # sent successfully must have been delivered by now
@@ -194,12 +278,12 @@ def spec_c04(case, trace):
 def _chunk(args):
     cases, want_model = args
     text = "\n".join("\n".join(c) for c in cases) + "\n"
-    rc, impl, err = C.run_vh("chansched", text, timeout=3000)
+    rc, impl, err = C.run_vh("chansched", text, timeout=900)
     if rc != 0:
         return ("error", "vh chansched failed: " + err[-300:], None)
     model = None
     if want_model:
-        rc, model, err = C.run_drv("chansched", text, timeout=3000)
+        rc, model, err = C.run_drv("chansched", text, timeout=900)
         if rc != 0:
             return ("error", "drv chansched failed: " + err[-300:], None)
         model = split_cases(model.splitlines())
@@ -271,6 +355,16 @@ def run(res, tier, seed, search=False, have_drv=True):
                                               "model.obs": "\n".join(model[i]) + "\n"}, tag="diff")
                 res.broken.append("correspondence: real channel and ChanProto disagree on `%s`: impl `%s` vs model `%s` (replay %s)"
                                   % (" | ".join(c[1:-1]), first[0], first[1], os.path.join(d, "case.sched")))
+    races = run_races(4 if tier == "quick" else 40)
+    res.cov["uncontrolled_race_runs"] = len(races)
+    for c, l, v in races:
+        if v and v[0] != "F9":
+            res.cov["impl_monitor_failures"] += 1
+            if len(res.violations) < 3:
+                d = C.write_replay(res.pid, {"case.sched": "\n".join(c) + "\n", "impl.obs": l + "\n", "model.obs": "-\n",
+                                              "verdict.txt": v[1] + "\n(uncontrolled run: the outcome depends on a real race inside std's blocking send; "
+                                                             "replaying runs the same programs again, several rounds)\n"})
+                res.violations.append(("C04 on the real channel (uncontrolled threads): %s   [%s]" % (v[1], " | ".join(c[1:-1])), os.path.join(d, "case.sched")))
     res.cov["distinct_nontrivial"] = len(nontrivial)
     res.cov["channel_kinds"] = kinds
     res.cov["traces_validated_against_impl"] = len(cases) if model is not None else 0
@@ -289,6 +383,15 @@ def run(res, tier, seed, search=False, have_drv=True):
 
 def replay(path):
     case = [l.rstrip("\n") for l in open(path) if l.strip()]
+    if any(l.startswith("race ") for l in case):
+        rc, out, err = C.run_vh("chansched", "\n".join(case) + "\n", timeout=600)
+        bad = 0
+        for l in out.splitlines():
+            if l.startswith("race "):
+                v = spec_race(case, l)
+                print(l, "->", v)
+                bad += 1 if (v and v[0] != "F9") else 0
+        return 1 if bad else 0
     impl, model = run_all([case])
     v = spec_c04(case, impl[0])
     print("--- implementation\n" + "\n".join(impl[0]) + "\n--- model\n" + "\n".join(model[0]) + "\n--- C04 clauses: %s" % (v,))
